@@ -61,8 +61,12 @@ class Ctx:
     """One exploration: DFS over decision prefixes by re-execution."""
 
     def __init__(self, max_paths=10**9, max_time=10**9, conc_cap=4096,
-                 max_steps=200000):
-        self.solver = z3.SolverFor("QF_BV")
+                 max_steps=200000, logic="QF_BV"):
+        # logic "" selects z3's default incremental SMT core instead of the
+        # QF_BV tactic solver (harness LIMITS key 'logic'): the latter, once a
+        # first check has been made, can take seconds to refute a query that
+        # repeats an asserted checksum term (C14 response acceptance)
+        self.solver = z3.SolverFor(logic) if logic else z3.Solver()
         self.max_paths = max_paths
         self.max_time = max_time
         self.conc_cap = conc_cap
